@@ -82,6 +82,7 @@ def run_case(case):
             del model[k]
     it = impl("construct", NodeIterator, t)
     facts = _observe(t, it, model, case, info)
+    first_root, first_model = bytes(t.root_hash), dict(model)
     # the SAME iterator object must keep describing the trie after the trie changed
     later = case.get("later") or []
     if later:
@@ -101,6 +102,25 @@ def run_case(case):
             cm_exit("squash_changes-exit", cm)
         info.label("reused-iterator-after-" + ("batch" if cm is not None else "direct-ops"))
         _observe(t, it, model, case, info)
+        # two walks over different roots of the same db, alive at the same time
+        old_t = impl("construct", HexaryTrie, t.db, first_root)
+        it_old = impl("construct", NodeIterator, old_t)
+        it_new = impl("construct", NodeIterator, t)
+
+        def lockstep():
+            import itertools
+            a, b = [], []
+            for x, y in itertools.zip_longest(it_old.items(), it_new.items()):
+                if x is not None:
+                    a.append(x)
+                if y is not None:
+                    b.append(y)
+            return a, b
+
+        a, b = impl("items", lockstep)
+        expect_eq("items-in-order-each-once", a, sorted(first_model.items()), "items() of the old root, walked in lock step with the new root")
+        expect_eq("items-in-order-each-once", b, sorted(model.items()), "items() of the new root, walked in lock step with the old root")
+        info.label("lock-step-walks")
     info.nontrivial = facts
     return info
 
